@@ -38,11 +38,13 @@ inductive Guard
   | registered
   /-- `pseudonym.public_key.key_to_bin() != known[h][key] → False` -/
   | subjectKey
-  /-- `time() > known[h][time] + window → False` -/
-  | fresh (window : Nat)
+  /-- `time() > known[h][time] + window → False` (`strict = false`: a registration exactly `window` seconds old still
+      signs) or `time() >= known[h][time] + window → False` (`strict = true`) -/
+  | fresh (window : Nat) (strict : Bool)
   /-- `transaction["name"] != known[h][name] → False` -/
   | nameMatches
-  /-- `known[h][md] is not None and {k: v … not in [name, date, schema]} != known[h][md] → False` -/
+  /-- `known[h][md] is not None and json.dumps({k: v … not in [name, date, schema]}, sort_keys=True)
+      != json.dumps(known[h][md], sort_keys=True) → False` (type-exact comparison) -/
   | fixedMetadata
   /-- the loop over `get_attestations_over(metadata)` / `get_authority` -/
   | notAttestedDb
